@@ -29,6 +29,7 @@ Theorem C11_nest_any_binning : forall n m pos val f0 c0 k,
   fst (iter n (acc_out m pos val) (f0, c0)) k = f0 k + sum_n n (fun i => sumif m (fun c => k =? pos i c) (val i)) /\
   snd (iter n (acc_out m pos val) (f0, c0)) k = c0 k + sum_n n (fun i => sumif m (fun c => k =? pos i c) (fun _ => 1)).
 Proof. exact acc_out_spec. Qed.
+Print Assumptions C11_nest_any_binning.
 
 (** pos2 = subint*nbins*nsubs + phasebin + sub_band*nbins, and it depends on (isamp, index) only through isamp + index *)
 Theorem C11_pos2_cell : forall tsamp period accel total nch nbins nints nsubs index isamp ichan,
@@ -36,30 +37,39 @@ Theorem C11_pos2_cell : forall tsamp period accel total nch nbins nints nsubs in
   fold_pos2 tsamp period accel total nch nbins nints nsubs index isamp ichan =
   cell_of tsamp period accel total nch nbins nints nsubs (isamp + index) ichan.
 Proof. exact fold_pos2_abs. Qed.
+Print Assumptions C11_pos2_cell.
 
 (** the sub-integration is floor(a*nints/total): in range for every sample below total -- also when total/nints is
     fractional -- and assigned by time order (sub-integration i holds the consecutive samples i*total <= a*nints < (i+1)*total) *)
 Theorem C11_subint_formula : forall total nints index isamp, 0 < total -> 0 < nints ->
   fold_subint total nints index isamp = subint_of total nints (isamp + index).
 Proof. exact fold_subint_eq. Qed.
+Print Assumptions C11_subint_formula.
 Theorem C11_subint_range : forall total nints a, 0 < total -> 0 < nints -> 0 <= a < total -> 0 <= subint_of total nints a < nints.
 Proof. exact subint_range. Qed.
+Print Assumptions C11_subint_range.
 Theorem C11_subint_time_order : forall total nints a i, 0 < total -> subint_of total nints a = i <-> i * total <= a * nints < (i + 1) * total.
 Proof. exact subint_iff. Qed.
+Print Assumptions C11_subint_time_order.
 Theorem C11_subint_monotone : forall total nints a b, 0 < total -> 0 < nints -> a <= b -> subint_of total nints a <= subint_of total nints b.
 Proof. exact subint_mono. Qed.
+Print Assumptions C11_subint_monotone.
 
 (** the sub-band is floor(c*nsubs/nchans): in range and monotone in the channel for ANY nchans, divisible by nsubs or not;
     with nsubs <= nchans no sub-band stays empty *)
 Theorem C11_subband_formula : forall nchans nsubs c, 0 < nchans -> 0 < nsubs -> fold_sub_band nchans nsubs c = subband_of nchans nsubs c.
 Proof. exact fold_sub_band_eq. Qed.
+Print Assumptions C11_subband_formula.
 Theorem C11_subband_range : forall nchans nsubs c, 0 < nchans -> 0 < nsubs -> 0 <= c < nchans -> 0 <= subband_of nchans nsubs c < nsubs.
 Proof. exact subband_range. Qed.
+Print Assumptions C11_subband_range.
 Theorem C11_subband_channel_order : forall nchans nsubs a b, 0 < nchans -> 0 < nsubs -> a <= b -> subband_of nchans nsubs a <= subband_of nchans nsubs b.
 Proof. exact subband_mono. Qed.
+Print Assumptions C11_subband_channel_order.
 Theorem C11_subband_onto : forall nchans nsubs b, 0 < nsubs <= nchans -> 0 <= b < nsubs ->
   exists c, 0 <= c < nchans /\ subband_of nchans nsubs c = b.
 Proof. exact subband_onto. Qed.
+Print Assumptions C11_subband_onto.
 
 (** the phase bin abs(int(phase)) % nbins is inside [0, nbins) for every phase (any period, acceleration, sign) *)
 Theorem C11_phasebin_range : forall tsamp period accel total nbins index isamp, 0 < nbins ->
@@ -134,6 +144,7 @@ Theorem C11_phasebin_periodic : forall tsamp L total nbins, (0 < tsamp)%Q -> 0 <
   forall a j period accel, (accel == 0)%Q -> (period == inject_Z L * tsamp)%Q -> 0 <= a -> 0 <= j ->
   fold_phasebin tsamp period accel total nbins 0 (a + j * L) = fold_phasebin tsamp period accel total nbins 0 a.
 Proof. exact phasebin_shift. Qed.
+Print Assumptions C11_phasebin_periodic.
 
 (** ... so a strictly periodic pulse train in the dedispersed data, folded at its period, leaves every cell outside one
     phase bin empty of signal, in every sub-integration and sub-band *)
@@ -153,6 +164,7 @@ Print Assumptions C11_periodic_single_bin.
 (** a whole-file fold passes the file length ... *)
 Theorem C11_full_file_total : forall N nn, 1 <= N -> fold_total N 0 N nn = N.
 Proof. exact fold_total_full. Qed.
+Print Assumptions C11_full_file_total.
 
 (** ... and in general (verdict over the regenerated call site): either the count passed as total_nsamps is the number of
     selected samples, or the model exhibits a sub-range fold whose last sub-integration receives nothing *)
@@ -177,6 +189,7 @@ Theorem C11_timeseries : forall data size tsamp period accel nbins nints, 1 <= s
   fst (ts_fold data size tsamp period accel nbins nints) k = cellsum 1 (tcell size tsamp period accel nbins nints) (fun a _ => data a) size k /\
   snd (ts_fold data size tsamp period accel nbins nints) k = cellsum 1 (tcell size tsamp period accel nbins nints) (fun _ _ => 1) size k.
 Proof. exact ts_fold_spec. Qed.
+Print Assumptions C11_timeseries.
 Theorem C11_timeseries_counts : forall data size tsamp period accel nbins nints, 1 <= size -> 1 <= nbins -> 1 <= nints ->
   sum_n (Z.to_nat (ts_fold_ncells nbins nints)) (snd (ts_fold data size tsamp period accel nbins nints)) = size.
 Proof. exact ts_counts_sum. Qed.
